@@ -140,4 +140,4 @@ def strategy(tier):
     )
 
 
-PARTS = [Part("lockstep", run, strategy, {"quick": 1600, "thorough": 40000}, rule=RULE)]
+PARTS = [Part("lockstep", run, strategy, {"quick": 1600, "thorough": 16000}, rule=RULE)]
